@@ -223,7 +223,12 @@ fn ill_typed_stmt(d: &mut Dec, p: &GProg) -> (&'static str, String) {
             _ => None,
         })
         .collect();
-    let closed: [(&'static str, &'static str); 38] = [
+    let closed: [(&'static str, &'static str); 42] = [
+        // type annotations of locals name types that do not exist
+        ("annot-unknown-closure-param", "let _ = |q: NoSuchType| 1;"),
+        ("annot-unknown-closure-param-nested", "let _ = |q: (int32, Vec[NoSuchType])| 1;"),
+        ("annot-unknown-let", "let ill: Ref[NoSuchType] = ref(1);"),
+        ("annot-unknown-type-param", "let _ = |q: (Q) -> int32| 1;"),
         // ... the variable occurring in every position of every constructor
         ("occurs-fn-ret", "let _ = |q| if true { q } else { q() };"),
         ("occurs-fn-ret-arg", "let _ = |q| if true { q } else { q(1) };"),
@@ -265,6 +270,17 @@ fn ill_typed_stmt(d: &mut Dec, p: &GProg) -> (&'static str, String) {
         ("vec-push-type", "let ill: Vec[int32] = vec_new(); let _ = vec_push(ill, \"s\");"),
         ("mixed-int-widths", "let _ = 1i8 + 1i16;"),
     ];
+    if !p.adts.is_empty() && d.chance(12) {
+        // a nominal type applied to the wrong number of type arguments in a local annotation
+        let a = &p.adts[d.below(p.adts.len())];
+        let n = if a.tparams > 0 && d.bool() { a.tparams - 1 } else { a.tparams + 1 };
+        let args = if n == 0 { String::new() } else { format!("[{}]", vec!["int32"; n as usize].join(", ")) };
+        return if d.bool() {
+            ("annot-arity-closure-param", format!("let _ = |q: {}{}| 1;", a.name, args))
+        } else {
+            ("annot-arity-closure-param-nested", format!("let _ = |q: (bool, {}{})| 1;", a.name, args))
+        };
+    }
     if d.chance(110) {
         return mismatch_stmt(d);
     }
@@ -489,6 +505,135 @@ fn count_blocks(p: &GProg) -> usize {
     n
 }
 
+// ---- nominal types of different packages that share their name are different types
+//
+// Two (or three) packages declare a struct or enum called the same; a value of one package's
+// type is used where the other package's type is required (argument, annotated let, returned
+// value, field, match scrutinee). Such a program is ill-typed whatever the shapes of the two
+// definitions; the same program with the right type in that place must be accepted.
+
+fn make_twins_case(bytes: &[u8]) -> Case {
+    let mut d = Dec::new(bytes);
+    let is_enum = d.bool();
+    let same_shape = d.bool();
+    let name = ["Point", "Item", "P", "Shape"][d.below(4)];
+    // where the two definitions live: (owner of the expected type, owner of the value)
+    let layout = d.below(3); // 0: Lib vs Main, 1: Main vs Lib, 2: LibA vs LibB
+    let def = |variant: u32| -> String {
+        if is_enum {
+            if variant == 0 || same_shape { format!("enum {name} {{ Mk(int32, int32), Other }}\n") } else { format!("enum {name} {{ Mk(string), Other }}\n") }
+        } else if variant == 0 || same_shape {
+            format!("struct {name} {{ x: int32, y: int32 }}\n")
+        } else {
+            format!("struct {name} {{ label: string, weight: int32 }}\n")
+        }
+    };
+    let value = |variant: u32, qual: &str| -> String {
+        if is_enum {
+            if variant == 0 || same_shape { format!("{qual}{name}::Mk(1, 2)") } else { format!("{qual}{name}::Mk(\"a\")") }
+        } else if variant == 0 || same_shape {
+            format!("{qual}{name} {{ x: 1, y: 2 }}")
+        } else {
+            format!("{qual}{name} {{ label: \"a\", weight: 2 }}")
+        }
+    };
+    let site = d.below(5);
+    let good = d.chance(60);
+    // packages: expected type E in package pe (variant 0), value type V in package pv (variant 1)
+    let (pe, pv) = match layout {
+        0 => ("Geo", "Main"),
+        1 => ("Main", "Geo"),
+        _ => ("Geo", "Ui"),
+    };
+    let q = |p: &str| if p == "Main" { String::new() } else { format!("{p}::") };
+    let mut files: Vec<(String, String)> = vec![];
+    let mut main = String::from("package Main\n");
+    let mut libs: Vec<&str> = vec![];
+    for p in [pe, pv] {
+        if p != "Main" && !libs.contains(&p) {
+            libs.push(p);
+        }
+    }
+    for l in &libs {
+        main.push_str(&format!("import {l}\n"));
+    }
+    main.push('\n');
+    // the consumer of the expected type lives with the expected type
+    let consumer = format!("fn take(v: {name}) -> int32 {{ 1 }}\n");
+    for l in &libs {
+        let variant = if *l == pe { 0 } else { 1 };
+        let mut text = format!("package {l}\n\n{}", def(variant));
+        if *l == pe {
+            text.push_str(&consumer);
+        }
+        files.push((format!("{l}/lib.gom"), text));
+    }
+    if pe == "Main" {
+        main.push_str(&def(0));
+        main.push_str(&consumer);
+    }
+    if pv == "Main" {
+        main.push_str(&def(1));
+    }
+    // the value actually used: of the expected type (well-typed control) or of the twin
+    let used = if good { value(0, &q(pe)) } else { value(1, &q(pv)) };
+    let ety = format!("{}{name}", q(pe));
+    let take = format!("{}take", q(pe));
+    let body = match site {
+        0 => format!("    let _ = {take}({used});\n"),
+        1 => format!("    let v = {used};\n    let _ = {take}(v);\n"),
+        2 => format!("    let v: {ety} = {used};\n"),
+        3 => format!("    let vs: Vec[{ety}] = vec_push(vec_new(), {used});\n"),
+        _ => format!("    let r: Ref[{ety}] = ref({used});\n"),
+    };
+    main.push_str(&format!("fn main() {{\n{body}    ()\n}}\n"));
+    files.push(("main.gom".into(), main));
+    let labels = vec![
+        format!("twins:{}", if is_enum { "enum" } else { "struct" }),
+        format!("twins:{}", if same_shape { "same-shape" } else { "different-shape" }),
+        format!("twins:layout-{}", ["lib-vs-main", "main-vs-lib", "lib-vs-lib"][layout]),
+        format!("twins:site-{site}"),
+        format!("twins:{}", if good { "control" } else { "mixed" }),
+    ];
+    Case::new(json!({"twins": true, "good": good, "files": goml::files_to_json(&files), "labels": labels}))
+}
+
+fn judge_twins_case(input: &serde_json::Value, ctx: &mut Ctx) -> CaseOut {
+    let files = goml::files_from_json(&input["files"]);
+    let key = fnv_str(&input["files"].to_string());
+    let good = input["good"].as_bool().unwrap_or(false);
+    let labels: Vec<String> = input["labels"].as_array().map(|a| a.iter().filter_map(|x| x.as_str().map(String::from)).collect()).unwrap_or_default();
+    let text: String = files.iter().map(|(p, t)| format!("// ---- {p}\n{t}")).collect();
+    match (goml::compile_project(ctx, &files), good) {
+        (CompileRes::Panic(pn), _) => CaseOut::fail(
+            format!("C03|panic|{}", pn.signature()),
+            format!("panic at {}:{}: {}\n{text}", pn.file, pn.line, pn.message),
+            key,
+        )
+        .labelled(labels),
+        (CompileRes::Ok(..), false) => CaseOut::fail(
+            "C03|ill-typed-accepted|same-name-other-package".into(),
+            format!("a value of one package's type is used where the same-named type of another package is required, and the program was accepted\n{text}"),
+            key,
+        )
+        .labelled(labels),
+        (CompileRes::Err(e), true) => CaseOut::fail(
+            "C03|well-typed-rejected|same-name-other-package".into(),
+            format!("{:?}\n{text}", goml::diag_messages(e.diagnostics())),
+            key,
+        )
+        .labelled(labels),
+        (CompileRes::Ok(comp, _), true) => {
+            let (errs, _) = irck::check_all(&comp);
+            if let Some(e) = errs.first() {
+                return CaseOut::fail(e.signature(), format!("[{}] {} in {}: {}\n{text}", e.stage, e.rule, e.func, e.detail), key).labelled(labels);
+            }
+            CaseOut::pass(true, key).labelled(labels)
+        }
+        (CompileRes::Err(_), false) => CaseOut::pass(true, key).labelled(labels),
+    }
+}
+
 impl Check for C03 {
     fn id(&self) -> &'static str {
         "C03"
@@ -499,9 +644,13 @@ impl Check for C03 {
             PhaseSpec { name: "ir", cases: tier.pick(30_000, 500_000), max_bytes: 500, exhaustive: false },
             PhaseSpec { name: "ir-large", cases: tier.pick(4_000, 80_000), max_bytes: 1200, exhaustive: false },
             PhaseSpec { name: "illtyped", cases: tier.pick(40_000, 600_000), max_bytes: 420, exhaustive: false },
+            PhaseSpec { name: "twins", cases: tier.pick(1_500, 20_000), max_bytes: 24, exhaustive: false },
         ]
     }
     fn make(&self, phase: &str, index: u64, bytes: &[u8], ctx: &mut Ctx) -> Case {
+        if phase == "twins" {
+            return make_twins_case(bytes);
+        }
         let mut d = Dec::new(bytes);
         let nodes = match phase {
             "ir-small" => 18,
@@ -534,6 +683,9 @@ impl Check for C03 {
         Case::new(json!({"text": text, "labels": p.labels.iter().cloned().collect::<Vec<_>>()}))
     }
     fn judge(&self, _phase: &str, case: &Case, ctx: &mut Ctx) -> CaseOut {
+        if case.input.get("twins").is_some() {
+            return judge_twins_case(&case.input, ctx);
+        }
         let text = case.input["text"].as_str().unwrap_or("");
         let key = fnv_str(text);
         let mut labels: Vec<String> = case.input["labels"]
